@@ -82,26 +82,30 @@ def conjuncts(g):
 
 
 def prove_one(hyps, goal, quick, retry=False):
-    """returns (status, backend, model|None, solver)"""
-    budgets = [(False, 3000), (True, 8000)] if quick else [(False, 10000), (True, 60000), (False, 60000)]
-    if retry: budgets = [(False, 12000), (True, 25000)]
+    """returns (status, backend, model|None, solver).
+    Budgets are z3 resource limits (deterministic, independent of machine load) with a generous wall-clock backstop."""
+    M = 1000000
+    if retry: budgets = [(False, 70 * M, 240000), (True, 40 * M, 120000)]
+    elif quick: budgets = [(False, 5 * M, 20000), (True, 8 * M, 30000)]
+    else: budgets = [(False, 70 * M, 240000), (True, 80 * M, 240000)]
     last = None
-    for mbqi, tmo in budgets:
-        s = z3.Solver(); s.set("timeout", tmo); s.set("smt.mbqi", mbqi)
+    for mbqi, rlimit, tmo in budgets:
+        s = z3.Solver(); s.set("timeout", tmo); s.set("rlimit", rlimit); s.set("smt.mbqi", mbqi)
         s.add(*hyps); s.add(z3.Not(goal))
         r = s.check(); last = s
         if r == z3.unsat: return "proved", "z3", None, s
         if r == z3.sat and mbqi: return "refuted", "z3", s.model(), s     # models found without MBQI may ignore quantifiers
-    r2, _ = check_cvc5(last, 8000 if quick else 60000)
-    if r2 == "unsat": return "proved", "cvc5", None, last
+    if not quick or retry:
+        r2, _ = check_cvc5(last, 60000)
+        if r2 == "unsat": return "proved", "cvc5", None, last
     # bounded refutation search (never yields 'proved')
     lens = _collect_len_terms(list(hyps) + [goal])
     for bound in (2, 3):
-        s3 = z3.Solver(); s3.set("timeout", 6000 if quick else 30000)
+        s3 = z3.Solver(); s3.set("timeout", 20000); s3.set("rlimit", 6 * M)
         s3.add(*hyps); s3.add(z3.Not(goal)); s3.add(*[l <= bound for l in lens])
         if s3.check() == z3.sat:
             return "refuted", "z3-bounded(len<=%d)" % bound, s3.model(), s3
-    return "undecided", "z3+cvc5", None, last
+    return "undecided", "z3+cvc5" if (not quick or retry) else "z3", None, last
 
 
 def discharge(ob, quick=True, retry=False):
